@@ -1,0 +1,97 @@
+//go:build verif
+
+// Contracts for the deductive verifier in /verif (comment-only; compiled only with -tags verif).
+
+package ct
+
+//@ func SerializeSCTSignatureInput
+//@ props C01 C04 C05
+//@ site tls.Marshal#1 as m
+//@ let te = entry.Leaf.TimestampedEntry
+//@ let in = as(m.val, CertificateTimestamp)
+//@ requires entry.Leaf.TimestampedEntry != nil
+//@ requires entry.Leaf.TimestampedEntry.EntryType == PrecertLogEntryType ==> entry.Leaf.TimestampedEntry.PrecertEntry != nil
+//@ modifies nothing
+//@ ensures [accepted-only-v1-and-known-type] result1 == nil ==> sct.SCTVersion == V1 && (old(te.EntryType) == X509LogEntryType || old(te.EntryType) == PrecertLogEntryType)
+//@ ensures [unknown-version-or-type-refused] sct.SCTVersion != V1 || !(old(te.EntryType) == X509LogEntryType || old(te.EntryType) == PrecertLogEntryType) ==> result1 != nil && !m.called
+//@ ensures [bytes-are-the-encoding] m.called ==> result0 == m.res0 && result1 == m.res1
+//@ at m assert [is-certificate-timestamp] typeof(m.val) == CertificateTimestamp
+//@ at m assert [rfc6962-3.2-header] in.SCTVersion == sct.SCTVersion && in.SignatureType == CertificateTimestampSignatureType && in.Timestamp == sct.Timestamp && in.EntryType == te.EntryType && in.Extensions == sct.Extensions
+//@ at m assert [x509-variant] te.EntryType == X509LogEntryType ==> in.X509Entry == te.X509Entry && in.PrecertEntry == nil && in.JSONEntry == nil
+//@ at m assert [precert-variant] te.EntryType == PrecertLogEntryType ==> in.X509Entry == nil && in.JSONEntry == nil && in.PrecertEntry != nil && in.PrecertEntry.IssuerKeyHash == te.PrecertEntry.IssuerKeyHash && in.PrecertEntry.TBSCertificate == te.PrecertEntry.TBSCertificate
+
+//@ func SerializeSTHSignatureInput
+//@ props C04 C05 C06
+//@ site tls.Marshal#1 as m
+//@ let in = as(m.val, TreeHeadSignature)
+//@ pure
+//@ dead return#2
+//@ note return#2 (root hash length check) is unreachable: SHA256RootHash is a [32]byte array
+//@ ensures [accepted-only-v1] result1 == nil ==> sth.Version == V1
+//@ ensures [unknown-version-refused] sth.Version != V1 ==> result1 != nil && !m.called
+//@ ensures [v1-is-encoded] sth.Version == V1 ==> m.called && result0 == m.res0 && result1 == m.res1
+//@ at m assert [is-tree-head-signature] typeof(m.val) == TreeHeadSignature
+//@ at m assert [rfc6962-3.5-fields] in.Version == sth.Version && in.SignatureType == TreeHashSignatureType && in.Timestamp == sth.Timestamp && in.TreeSize == sth.TreeSize && in.SHA256RootHash == sth.SHA256RootHash
+
+//@ func IsPreIssuer
+//@ props C01 C03
+//@ arith int
+//@ pure
+//@ requires issuer != nil
+//@ loop 1 invariant forall j int :: 0 <= j && j <= rangeindex ==> issuer.ExtKeyUsage[j] != x509.ExtKeyUsageCertificateTransparency
+//@ ensures [iff-ct-eku-present] result <==> (exists j int :: 0 <= j && j < len(issuer.ExtKeyUsage) && issuer.ExtKeyUsage[j] == x509.ExtKeyUsageCertificateTransparency)
+
+//@ func MerkleTreeLeafFromChain
+//@ props C01 C03
+//@ arith int
+//@ site IsPreIssuer#1 as ipi
+//@ site BuildPrecertTBS#1 as bpt
+//@ site sha256.Sum256#1 as sha
+//@ requires len(chain) >= 1
+//@ requires forall j int :: 0 <= j && j < len(chain) ==> chain[j] != nil
+//@ fresh result0
+//@ ensures [unknown-type-refused] etype != X509LogEntryType && etype != PrecertLogEntryType ==> result1 != nil && result0 == nil
+//@ ensures [result-xor-error] (result0 != nil) != (result1 != nil)
+//@ ensures [leaf-header] result1 == nil ==> result0.Version == V1 && result0.LeafType == TimestampedEntryLeafType && result0.TimestampedEntry != nil && result0.TimestampedEntry.Timestamp == timestamp && result0.TimestampedEntry.EntryType == etype
+//@ ensures [x509-entry-is-leaf-cert] result1 == nil && etype == X509LogEntryType ==> result0.TimestampedEntry.X509Entry != nil && result0.TimestampedEntry.X509Entry.Data == old(chain[0].Raw) && result0.TimestampedEntry.PrecertEntry == nil
+//@ ensures [precert-needs-issuer] etype == PrecertLogEntryType && len(chain) < 2 ==> result1 != nil
+//@ ensures [preissuer-needs-final-issuer] etype == PrecertLogEntryType && len(chain) == 2 && ipi.called && ipi.res ==> result1 != nil
+//@ ensures [precert-entry] result1 == nil && etype == PrecertLogEntryType ==> result0.TimestampedEntry.PrecertEntry != nil && result0.TimestampedEntry.X509Entry == nil && bpt.called && bpt.res1 == nil && result0.TimestampedEntry.PrecertEntry.TBSCertificate == bpt.res0 && sha.called && result0.TimestampedEntry.PrecertEntry.IssuerKeyHash == sha.res
+//@ at ipi assert [tests-the-second-certificate] ipi.issuer == chain[1]
+//@ at bpt assert [tbs-of-leaf-and-preissuer] bpt.tbsData == chain[0].RawTBSCertificate && (ipi.res ==> bpt.preIssuer == chain[1]) && (!ipi.res ==> bpt.preIssuer == nil)
+//@ at sha assert [key-hash-of-final-issuer] (ipi.res ==> sha.data == chain[2].RawSubjectPublicKeyInfo) && (!ipi.res ==> sha.data == chain[1].RawSubjectPublicKeyInfo)
+
+//@ func MerkleTreeLeafForEmbeddedSCT
+//@ props C03
+//@ arith int
+//@ site RemoveSCTList#1 as rm
+//@ site sha256.Sum256#1 as sha
+//@ requires forall j int :: 0 <= j && j < len(chain) ==> chain[j] != nil
+//@ fresh result0
+//@ ensures [needs-issuer] len(chain) < 2 ==> result1 != nil && result0 == nil
+//@ ensures [result-xor-error] (result0 != nil) != (result1 != nil)
+//@ ensures [same-shape-as-precert-leaf] result1 == nil ==> result0.Version == V1 && result0.LeafType == TimestampedEntryLeafType && result0.TimestampedEntry != nil && result0.TimestampedEntry.Timestamp == timestamp && result0.TimestampedEntry.EntryType == PrecertLogEntryType && result0.TimestampedEntry.X509Entry == nil && result0.TimestampedEntry.PrecertEntry != nil
+//@ ensures [tbs-without-sct-list] result1 == nil ==> rm.called && rm.res1 == nil && result0.TimestampedEntry.PrecertEntry.TBSCertificate == rm.res0 && sha.called && result0.TimestampedEntry.PrecertEntry.IssuerKeyHash == sha.res
+//@ at rm assert [tbs-of-leaf] rm.tbsData == chain[0].RawTBSCertificate
+//@ at sha assert [key-hash-of-issuer] sha.data == chain[1].RawSubjectPublicKeyInfo
+
+//@ func CreateX509MerkleTreeLeaf
+//@ props C04
+//@ fresh result
+//@ ensures [leaf] result != nil && result.Version == V1 && result.LeafType == TimestampedEntryLeafType && result.TimestampedEntry != nil && result.TimestampedEntry.Timestamp == timestamp && result.TimestampedEntry.EntryType == X509LogEntryType && result.TimestampedEntry.X509Entry != nil && result.TimestampedEntry.X509Entry.Data == cert.Data && result.TimestampedEntry.PrecertEntry == nil
+
+//@ func LeafHashForLeaf
+//@ props C04 C06
+//@ site tls.Marshal#1 as m
+//@ site sha256.Sum256#1 as sha
+//@ requires leaf != nil
+//@ ensures [marshal-error-propagates] m.res1 != nil ==> result1 != nil && !sha.called
+//@ ensures [hash-of-prefixed-encoding] result1 == nil ==> sha.called && result0 == sha.res
+//@ at sha assert [rfc6962-2.1-leaf-prefix] len(sha.data) == len(m.res0) + 1 && sha.data[0] == 0
+//@ at sha assert [then-the-leaf-encoding] forall j int :: 0 <= j && j < len(m.res0) ==> sha.data[j+1] == m.res0[j]
+
+//@ func TimestampToTime
+//@ props C04
+//@ arith int
+//@ site time.Unix#1 as u
+//@ ensures [seconds-and-nanos] u.called && u.sec * 1000 + u.nsec / 1000000 == ts && 0 <= u.nsec && u.nsec < 1000000000 && u.nsec % 1000000 == 0
